@@ -28,7 +28,7 @@ mod serde_json {
 
     /// `serde_json::to_writer_pretty(&mut stderr, &diagnostics)`: output is not modelled
     #[verifier::external_body]
-    pub fn to_writer_pretty<W>(w: &mut W, v: &HashMap<PathBuf, Vec<Value>>) -> (r: Result<()>)
+    pub fn to_writer_pretty<W>(w: &mut W, v: &HashMap<String, Vec<Value>>) -> (r: Result<()>)
     { unimplemented!() }
     }
 }
